@@ -292,6 +292,12 @@ def schedule(path: Path):
                 rsp = ("aersp", len(times), 0)
                 sent_at[rsp], deliv_at[rsp] = t, t + sc["net_default"]
                 route_msgs.setdefault((j, i), []).append(rsp)
+            # ... and its reconciling puts consume slots of the stores' put scripts (plain store latency)
+            for x in (j, i):
+                for kk in range(nk):
+                    if st["ver"][x - 1][kk] != prev["ver"][x - 1][kk]:
+                        put_start[x].append(t)
+                        put_done[x].append(t + sc["base_w"])
         prev = st
     tend = t + 1.0
     sc["put"] = {str(i): [(put_done[i][k] if k < len(put_done[i]) else tend) - ts for k, ts in enumerate(put_start[i])]
